@@ -35,6 +35,37 @@ def andOrNull (fp : FP) (e : Expr) (rows : List Row) (model : QOut) (spec : Res 
       !diff.isEmpty && diff.all (nullOperandAt fp.i2f e)
   | _, _ => false
 
+/-! ### Per-case validation of the side conditions of `C03_where` on the real column images -/
+
+def bitsOfET : ET → Option Nat
+  | .u8 => some 8 | .u16 => some 16 | .u32 => some 32 | _ => none
+
+def sortedB : List Bytes → Bool
+  | a :: b :: rest => bytesLt a b && sortedB (b :: rest)
+  | _ => true
+
+/-- Stored values of offset / cast columns fit the narrow section type; dictionaries are strictly sorted and contain
+    every stored string (the `WellEnc` hypotheses of `IntCol` / `StrCol`). -/
+def imageOK (im : ColImg) (cells : List Val) : Bool :=
+  let rest := if hasProperty COp.elementwise im.ops then im.ops else (ensureProperty COp.elementwise im.ops).2
+  match rest with
+  | [.add t o] => match bitsOfET t with
+      | some b => cells.all fun v => match v with | .int i => decide (inU b (i - o)) | _ => true
+      | none => false
+  | [.toI64 t] => match bitsOfET t with
+      | some b => cells.all fun v => match v with | .int i => decide (inU b i) | _ => true
+      | none => false
+  | [.push 1, .push 2, .dict _] =>
+      sortedB im.dict && cells.all fun v => match v with | .str s => im.dict.contains s | _ => true
+  | _ => true
+
+/-- First column (partition start, column index) whose image violates the side conditions. -/
+def badImage (parts : List (Nat × Part)) : Option (Nat × Nat) :=
+  parts.findSome? fun (start, p) =>
+    (p.cols.zipIdx.findSome? fun ((pc, cells), j) => match pc with
+      | .img im => if imageOK im cells then none else some (start, j)
+      | .absent => none)
+
 def classify (fp : FP) (_parts : List (Nat × Part)) (e : Expr) (rows : List Row) (model : QOut) (spec : Res (List Row)) : String :=
   if andOrNull fp e rows model spec then "C03-and-or-null" else ""
 
